@@ -139,6 +139,18 @@ func pngGrammar(depth int, each func(Case)) {
 			}
 		}
 	}
+	// iCCP profile names of every legal length (1..79), incl. Latin-1 bytes
+	for n := 1; n <= 79; n++ {
+		nm := bytes.Repeat([]byte{'n'}, n)
+		if n > 1 {
+			nm[n-1] = 0xFC
+		}
+		prof := testProfile(40+n, "ramp")
+		spec := gen.PNGSpec{W: uint32(100 + n), H: 50, BitDepth: 8, ColorType: 6, IDAT: []byte{0x78, 0x9c, 0x03, 0, 0, 0, 0, 1},
+			Pre: []gen.PNGChunk{pngAncillary("gAMA"), {Type: "iCCP", Data: gen.ICCPChunk(string(nm), prof, 6)}, pngAncillary("pHYs")}}
+		data, info := spec.Build(prof, 1)
+		each(Case{fmt.Sprintf("png iCCP with a %d-byte profile name", n), data, info})
+	}
 	// chunk headers straddling the 4096-byte read boundaries, every alignment
 	for _, boundary := range []int{4096, 8192} {
 		for k := -1; k <= 12; k++ {
